@@ -781,7 +781,18 @@ func init() {
 		add(2, 2, 0, 20, 0, 3)
 		out = append(out, Inst{Pkg: "knx", Fn: "HarnessC13", Args: []int64{2, 1, 0, 20, 0, 2}, Ctx: 2, RandChoice: true, MaxSched: 20000, Note: "lost indication: repetitions are paced too"},
 			Inst{Pkg: "knx", Fn: "HarnessC13", Args: []int64{1, 2, 1, 5, 30, 3}, Ctx: 2, RandChoice: true, MaxSched: 20000})
+		// the per-goroutine quota after a busy indication, under FIFO hand-off of the send lock
+		quota := func(ns, per, nb, pause, wait int64, ctx int) {
+			out = append(out, Inst{Pkg: "knx", Fn: "HarnessC13Quota", Args: []int64{ns, per, nb, pause, wait}, Ctx: ctx, MaxSched: 20000,
+				Note: "quota per goroutine already inside Send; sync.Mutex hands over FIFO (starvation mode); wait -1 = symbolic"})
+		}
+		quota(2, 2, 1, 5, -1, 2)
+		quota(2, 1, 2, 20, -1, 2)
+		quota(2, 2, 1, 5, 30, 3)
 		if thorough {
+			quota(3, 2, 2, 5, 30, 2)
+			quota(2, 2, 2, 0, 60, 3)
+			quota(3, 1, 1, 5, -1, 2)
 			add(3, 2, 2, 5, 30, 2)
 			add(3, 1, 2, 20, 100, 3)
 			add(2, 2, 2, 0, 60, 3)
@@ -794,10 +805,10 @@ func init() {
 		Solver:   "cvc5",
 		Quick:    func(l *loaded) []Inst { return c13(false) },
 		Thorough: func(l *loaded) []Inst { return c13(true) },
-		Covers:   []string{"C13.end", "C13.cap.end", "C02.ind.end"},
-		Bounds:   "real serve goroutine and 1..2 (thorough 3) sender goroutines x 1..2 messages, 0..2 busy indications handed in at every point of the interleaving (context bound 2..3), pause in {0,5,20} ms, wait in {0,10,30,60,100,500} ms on the virtual clock (lower-bound semantics: goroutines take no time, timers fire exactly at their deadline); the 50 ms cap and the resume obligation with a fully symbolic 16-bit wait time, control word and random part",
-		Outside:  "8 senders and bursts of 200; the clause 'at most one further transmission per goroutine already inside Send' needs a fair (FIFO) mutex and is not decided: under the plain sync.Mutex contract a newcomer may barge (see DESIGN 3.2) - decided instead: nothing is transmitted from the instant the server goroutine owns the lock until min(wait, 50 ms) later, pacing gap, every Send returns",
-		Assume:   []string{"sync.Mutex: any waiter or newcomer may win an unlocked mutex", "time.AfterFunc/Sleep are engine primitives on the virtual clock"},
+		Covers:   []string{"C13.end", "C13.cap.end", "C02.ind.end", "C13.quota.end", "C13.quota.transmission_after_busy"},
+		Bounds:   "real serve goroutine and 1..2 (thorough 3) sender goroutines x 1..2 messages, 0..2 busy indications handed in at every point of the interleaving (context bound 2..3), pause in {0,5,20} ms, wait in {0,10,30,60,100,500} ms on the virtual clock (lower-bound semantics: goroutines take no time, timers fire exactly at their deadline); the 50 ms cap and the resume obligation with a fully symbolic 16-bit wait time, control word and random part; the per-goroutine quota (every transmission between the instant the indication is taken in and the instant the server goroutine owns the send lock belongs to a Send call entered before, at most one per goroutine; silence for min(wait, 50 ms) afterwards) with 2 (thorough 3) senders x 1..2 messages, 1..2 indications, wait time concrete or fully symbolic (16 bits), the order of arrival at the lock being part of the explored interleaving",
+		Outside:  "8 senders and bursts of 200; the clause 'at most one further transmission per goroutine already inside Send' is decided under FIFO hand-off of sync.Mutex only (what the runtime guarantees once a waiter has waited 1 ms, starvation mode); with barging allowed (normal mode, first millisecond) a goroutine that re-enters Send can overtake the waiting server goroutine - HarnessC13Quota with a sixth argument shows that counterexample - so the clause cannot hold for any implementation on a plain mutex and is not claimed there; all other obligations use the weakest mutex contract (any waiter or newcomer may win)",
+		Assume:   []string{"sync.Mutex: any waiter or newcomer may win an unlocked mutex (all obligations but the quota)", "HarnessC13Quota only: a free sync.Mutex goes to the goroutine that arrived at Lock first (FIFO hand-off, starvation mode)", "time.AfterFunc/Sleep are engine primitives on the virtual clock"},
 	})
 
 	c09 := func(thorough bool) []Inst {
